@@ -514,8 +514,30 @@ class _Patches:
         return False
 
 
+def rewire(case, tasks):
+    '''Graphs of `case` over already existing task objects (their dependency
+    sets are rewritten).'''
+    from valjean.cosette.depgraph import DepGraph
+    for name in case['tasks']:
+        tasks[name].depends_on = {tasks[d] for d in
+                                  case.get('hard', {}).get(name, [])}
+        tasks[name].soft_depends_on = {tasks[d] for d in
+                                       case.get('soft', {}).get(name, [])}
+    hard, soft = DepGraph(), DepGraph()
+    for name in case['tasks']:
+        hard.add_node(tasks[name])
+        soft.add_node(tasks[name])
+    for name in case['tasks']:
+        for dep in sorted(case.get('hard', {}).get(name, [])):
+            hard.add_dependency(tasks[name], on=tasks[dep])
+        for dep in sorted(case.get('soft', {}).get(name, [])):
+            soft.add_dependency(tasks[name], on=tasks[dep])
+    return hard, soft
+
+
 def run_controlled(case, strategy, mon=None, env=None, tasks_graphs=None,
-                   max_steps=100000, clock0=0, fine=None, repeat=1):
+                   max_steps=100000, clock0=0, fine=None, repeat=1,
+                   then=None):
     '''One run of the real scheduler under the controller.'''
     # pylint: disable=too-many-locals,too-many-statements
     import valjean.cosette.backends.queue as qmod
@@ -565,6 +587,20 @@ def run_controlled(case, strategy, mon=None, env=None, tasks_graphs=None,
                     # on the environment it has just produced
                     mon.new_run(case['outcomes'])
                     sched.schedule(env=env)
+                if then is not None:
+                    # the same backend object and the same task objects,
+                    # another graph and other outcomes, a fresh environment
+                    res.first_statuses = status_map(env, case['tasks'])
+                    res.first_exec = dict(mon.exec_run)
+                    hard2, soft2 = rewire(then, tasks)
+                    env = env_class()()
+                    env.mon = mon
+                    env.lock = ctlmod.CoopRLock(ctl, 'env2')
+                    res.env = env
+                    mon.new_run(then['outcomes'])
+                    Scheduler(hard_graph=hard2, soft_graph=soft2,
+                              backend=backend).schedule(env=env)
+                    case = then
                 res.outcome = 'returned'
             except ctlmod.Deadlock:
                 res.outcome = 'deadlock'
